@@ -129,6 +129,17 @@ func runC10(t *testing.T, c c10cfg) (out c10out) {
 			cache = &HCache{Data: []byte(`{"a":{"secret":{"Value":"eA==","Version":1}`)}
 		case "invalid-entry":
 			cache = &HCache{Data: []byte(`{"a":{"secret":null,"lastAccess":"1"},"b":{"secret":{"Value":"eA==","Version":1}}}`)}
+		case "type-error":
+			// valid JSON whose entry for "a" has a mistyped member (damaged base64): the whole document must be ignored
+			parts := []string{`"a":{"secret":{"Value":"%%%%","Version":3},"lastAccess":"1"}`}
+			for _, n := range all {
+				if n != "a" {
+					parts = append(parts, fmt.Sprintf(`"%s":{"secret":{"Value":"%s","Version":1},"lastAccess":"5"}`, n, b64(Value(n, 1))))
+				}
+			}
+			cache = &HCache{Data: []byte("{" + strings.Join(parts, ",") + "}")}
+		case "type-error-number":
+			cache = &HCache{Data: []byte(`{"a":7,"b":{"secret":{"Value":"` + b64(Value("b", 1)) + `","Version":1},"lastAccess":"5"}}`)}
 		case "readerr":
 			cache = &HCache{FailR: true}
 		}
@@ -345,7 +356,7 @@ func checkC10(t *testing.T, env *report.Env, rep *report.Report) {
 		"service scripts per secret: success after k failures for k in {0,1,2,3,12,13,14}, or failure forever; failures are plain errors or look like timeouts that are not the caller's; the service either honours the caller's context or keeps answering from its script after it ended",
 	}
 	sec := rep.Add(&report.Section{Name: "construction-all-configurations", Engine: "enum", Exhaustive: true, Extra: map[string]int64{}, Outcomes: map[string]int64{},
-		Rule: "declared-list shape(8, incl. names repeated across Secrets and struct tags) × cache state(8) × per-secret failure script(8 each) × context(5) × service error style(4), each one NewStore execution under virtual time against the retry model; non-trivial = configurations in which at least one secret has to be fetched and at least one request fails"})
+		Rule: "declared-list shape(8, incl. names repeated across Secrets and struct tags) × cache state(10) × per-secret failure script(8 each) × context(5) × service error style(4), each one NewStore execution under virtual time against the retry model; non-trivial = configurations in which at least one secret has to be fetched and at least one request fails"})
 	lists := []struct {
 		name    string
 		names   []string
@@ -353,7 +364,7 @@ func checkC10(t *testing.T, env *report.Env, rep *report.Report) {
 		mixed   string
 	}{{"[a]", []string{"a"}, false, ""}, {"[a,b]", []string{"a", "b"}, false, ""}, {"[a,a]", []string{"a", "a"}, false, ""}, {"[b,a,b]", []string{"b", "a", "b"}, false, ""}, {"struct{a,b}", []string{"a", "b"}, true, ""}, {"struct{a}", []string{"a"}, true, ""},
 		{"[a,b]+struct{a}", []string{"a", "b"}, true, "secrets+tag"}, {"struct{a,b,a}", []string{"a", "b"}, true, "aba"}}
-	caches := []string{"none", "empty", "partial", "complete", "stale", "malformed", "invalid-entry", "readerr"}
+	caches := []string{"none", "empty", "partial", "complete", "stale", "malformed", "invalid-entry", "type-error", "type-error-number", "readerr"}
 	scripts := []int{0, 1, 2, 3, 12, 13, 14, -1}
 	if env.Thorough() {
 		scripts = []int{0, 1, 2, 3, 4, 5, 10, 11, 12, 13, 14, 15, -1}
